@@ -43,6 +43,20 @@ def build_groups(ctx: Ctx):
             cases += [(p, rng.choice(rt.METHODS), rt.NOQ) for p in paths[:10]]
             groups.append((rt.make_cfg(rules, s, m), True, cases))
     groups += lenient_405_groups(ctx, rng)
+    # (c) the method written in lower / mixed case through match(method=), dispatch(method=), bind(default_method=):
+    #     the outcome is that of the upper-case method
+    U2 = [r for r in U if r["methods"]] + [dict(r, methods=["GET", "POST"]) for r in U[7:12]]
+    combos = [(sp, call) for sp in ("post", "Post", "get", "Get", "put", "head", "delete") for call in ("match", "dispatch", "default")]
+    for n in range(12 if q else 120):
+        rules = [dict(r, endpoint=f"m{i}") for i, r in enumerate(rng.sample(U2, 2) + rng.sample(U, 1))]
+        rng.shuffle(rules)
+        paths = rt.paths_for(rules, rng, 12)
+        cases = []
+        for j, p in enumerate(paths):
+            sp, call = combos[(n * 5 + j * 2) % len(combos)]
+            cases.append((p, sp.upper(), rt.NOQ, {"call": call, "spell": sp}))
+        s_, m_ = rng.choice(settings())
+        groups.append((rt.make_cfg(rules, s_, m_), True, cases))
     # (b) random maps of 1..6 rules, several insertion orders
     for _ in range(90 if q else 1500):
         k = rng.randint(1, 6)
@@ -115,7 +129,9 @@ def judge_groups(ctx: Ctx, groups, clauses=CLAUSES, kind="c03", key_prefix=""):
             continue
         ln = bykey[(r["t"], r["i"])]
         cfg = cfgs[r["t"]]
-        case = {"cfg": cfg, "path": "".join(map(chr, ln["path"])), "method": ln["method"],
+        gcase = groups[r["t"]][2][r["i"]]
+        case = {"cfg": cfg, "how": gcase[3] if len(gcase) > 3 else None,
+                "path": "".join(map(chr, ln["path"])), "method": ln["method"],
                 "q": {"kind": ln["q"]["kind"], "s": "".join(map(chr, ln["q"]["s"])),
                       "pairs": [["".join(map(chr, k)), "".join(map(chr, v))] for k, v in ln["q"]["pairs"]]},
                 "rules_text": [rt.rule_string(x) for x in cfg["rules"]], "observed": ln["r"]["kind"],
@@ -287,7 +303,7 @@ def replay(ctx: Ctx, data):
         ctx.sample({"history": case["rules_text"], "path": case["path"], "method": case["method"]})
         judge_histories(ctx, [(case["base"], case["ops"])])
         return
-    g = (case["cfg"], True, [(case["path"], case["method"], case["q"])])
+    g = (case["cfg"], True, [(case["path"], case["method"], case["q"]) + ((case["how"],) if case.get("how") else ())])
     ctx.nontrivial.update({("replay", 0), ("replay", 1)})
     ctx.sample({"rules": case["rules_text"], "path": case["path"], "method": case["method"]})
-    judge_groups(ctx, [g])
+    judge_groups(ctx, [g], key_prefix=data.get("key", "").split(".")[0] + "." if "." in data.get("key", "").split(":")[0] else "")
